@@ -237,14 +237,14 @@ func (w *apiWorld) xidxOp(L *lua.LState, a []string) {
 	}
 }
 
-// extremes whose register arithmetic stays inside the int range for every base the harness reaches (LocalBase < 300) …
-var c10ExtremeGet = []int64{-9999, -9998, 1 << 40, 1 << 62, math.MaxInt64 - 300,
+// extremes: around the pseudo-index range, far out, and both sides of the point where `base + idx - 1` no longer fits an
+// int (MaxInt64-300 fits for every base the harness reaches, LocalBase < 300; MaxInt64-1 and MaxInt64 do not for
+// LocalBase >= 3 / >= 2: the class of C10-index-int-overflow, fixed — Get / Replace compare before they add).
+var c10ExtremeGet = []int64{-9999, -9998, 1 << 40, 1 << 62, math.MaxInt64 - 300, math.MaxInt64 - 1, math.MaxInt64,
 	-10003, -10006, -10100, -(1 << 40), math.MinInt64 + 1, math.MinInt64}
-var c10ExtremeReplace = []int64{-9999, 1 << 40, math.MaxInt64 - 300}
+var c10ExtremeReplace = []int64{-9999, 1 << 40, math.MaxInt64 - 300, math.MaxInt64 - 1, math.MaxInt64}
 
-// … and the ones where `base + idx - 1` wraps around for LocalBase >= 2 (finding C10-index-int-overflow).  A known-finding
-// verdict ends the judgement of its case (the first non-ok line of a case is the one reported), so these run in tiny cases
-// of their own, as the last op.
+// the overflowing ones once more in small cases of their own (depth 0..3, Get | Replace): minimal replays.
 var c10OverflowIdx = []int64{math.MaxInt64 - 1, math.MaxInt64}
 
 func (g *histGen) xidx() {
@@ -256,8 +256,8 @@ func (g *histGen) xidx() {
 	}
 }
 
-// idxCases: bounded-exhaustive TEST grid depth 0..5 x 0..3 upvalues x every extreme index, Get and Replace; plus one tiny
-// case per (depth 0..3, overflowing index, Get | Replace).
+// idxCases: bounded-exhaustive TEST grid depth 0..5 x 0..3 upvalues x every extreme index, Get and Replace; plus one small
+// case per (depth 0..3, overflowing index, Get | Replace) followed by a sweep and a snapshot.
 func idxCases(r *Rng) [][]Op {
 	var res [][]Op
 	i := 0
@@ -295,6 +295,7 @@ func idxCases(r *Rng) [][]Op {
 				} else {
 					ops = append(ops, Op{Args: []string{"xidx", "replace", strconv.FormatInt(x, 10), "i9"}})
 				}
+				ops = append(ops, Op{Args: []string{"sweep"}}, Op{Args: []string{"snap"}})
 				res = append(res, ops)
 			}
 		}
@@ -365,7 +366,7 @@ func (w *apiWorld) objhOp(L *lua.LState, a []string) {
 	w.resyncLine(L)
 }
 
-// objc0: Concat() with no operand.
+// objc0: Concat() with no operand: the empty string; the list is untouched (`nop` line).
 func (w *apiWorld) objc0Op(L *lua.LState) {
 	res := func() (r string) {
 		defer func() {
@@ -434,15 +435,18 @@ func (g *histGen) objh() {
 			n = ftop
 		}
 		g.add(append([]string{"objh", which, strconv.Itoa(n)}, body...)...)
+	case c < 92:
+		g.add("objc0") // Concat() with no operand: the empty string, whatever lies below
 	default: // (the result kinds that are known findings — table, nil, boolean — run in cases of their own: objhCases)
 		g.add("objcr", Pick(r, []string{"str", "num"}))
 	}
 }
 
 // objhCases: bounded-exhaustive TEST grid depth 0..4 x {tostring, len, concat} x returned count 0..3 x three fixed handler
-// bodies + one seed-derived body, __concat returning a string / a number; plus tiny cases of their own (a known-finding
-// verdict ends the judgement of its case) for Concat() on an empty registry / above a string / above a number / on an empty
-// own list inside a function, and for every other __concat result kind.
+// bodies + one seed-derived body, __concat returning a string / a number, Concat() with no operand; Concat() on an empty
+// registry / above a string / above a number / above an object / on an empty own list inside a function (small cases:
+// minimal replays); plus tiny cases of their own (a known-finding verdict ends the judgement of its case) for every other
+// __concat result kind.
 func objhCases(r *Rng) [][]Op {
 	var res [][]Op
 	fixed := [][]string{nil, {"push:i42", "push:s61"}, {"settop:0", "push:nil", "push:i7", "insert:s62:1"}}
@@ -468,7 +472,9 @@ func objhCases(r *Rng) [][]Op {
 				}
 			}
 			g.add("objcr", "str")
+			g.add("objc0")
 			g.add("objcr", "num")
+			g.add("objc0")
 			g.add("snap")
 			g.add("sweep")
 			g.ending()
@@ -483,7 +489,7 @@ func objhCases(r *Rng) [][]Op {
 			if below != "" {
 				ops = append(ops, Op{Args: []string{"push", below}})
 			}
-			res = append(res, append(ops, Op{Args: []string{"objc0"}}))
+			res = append(res, append(ops, Op{Args: []string{"objc0"}}, Op{Args: []string{"sweep"}}, Op{Args: []string{"snap"}}))
 		}
 		for _, k := range []string{"tbl", "nil", "bool"} {
 			i++
